@@ -27,6 +27,9 @@ type C14TransportCase struct {
 	Buf  int      `json:"buf"`
 	IDs  []string `json:"ids"`
 	Cut  int      `json:"cut"` // the stream is fed in chunks of this many bytes (0: one chunk per message)
+	// SetupNs (acceptor): the application's new-client callback takes this long before it creates the
+	// session; the peer does not wait and sends its Logon right after connecting
+	SetupNs int64 `json:"setup_ns,omitempty"`
 	// Bad[k] != "": a Heartbeat that fails the integrity check ("checksum", "checksum-spelling", "bodylength")
 	// precedes request k on the stream; it gets its Reject and the request behind it its answer
 	Bad   []string `json:"bad,omitempty"`
@@ -38,6 +41,9 @@ func genC14Transport(t *rapid.T) *C14TransportCase {
 		Role: rapid.SampledFrom([]string{"acceptor", "initiator"}).Draw(t, "role"),
 		Buf:  rapid.SampledFrom([]int{0, 1, 10}).Draw(t, "buf"),
 		Cut:  rapid.SampledFrom([]int{0, 0, 1, 7, 1000, 4096, 5000}).Draw(t, "cut"),
+	}
+	if c.Role == "acceptor" {
+		c.SetupNs = rapid.SampledFrom([]int64{0, 0, 1e6, 300e6}).Draw(t, "setupNs")
 	}
 	for i := rapid.IntRange(1, 6).Draw(t, "nIDs"); i > 0; i-- {
 		var n int
@@ -81,8 +87,12 @@ func checkC14Transport(c *C14TransportCase, rec *evid.Rec) (vs []pbt.Violation) 
 		}
 		var ar *rig.AcceptorRig
 		var ir *rig.InitiatorRig
+		early := false // the Logon is on its way before the new-client callback has returned
 		if c.Role == "acceptor" {
 			ar = rig.StartAcceptor(c.Buf, time.Minute, func(h simplefixgo.AcceptorHandler) {
+				if c.SetupNs > 0 {
+					time.Sleep(time.Duration(c.SetupNs))
+				}
 				if _, err := rig.AcceptorSession(cfg, h, store, store); err != nil {
 					panic(err)
 				}
@@ -90,6 +100,7 @@ func checkC14Transport(c *C14TransportCase, rec *evid.Rec) (vs []pbt.Violation) 
 			nc := netsim.NewConn("c")
 			ar.L.Connect(nc)
 			conn = nc
+			early = c.SetupNs > 0
 		} else {
 			ir = rig.NewInitiatorRig(c.Buf, time.Minute)
 			ir.Serve()
@@ -98,7 +109,9 @@ func checkC14Transport(c *C14TransportCase, rec *evid.Rec) (vs []pbt.Violation) 
 			}
 			conn = ir.C
 		}
-		synctest.Wait()
+		if !early {
+			synctest.Wait()
+		}
 		feed := func(b []byte) {
 			if c.Cut <= 0 {
 				conn.Feed(b)
@@ -112,6 +125,10 @@ func checkC14Transport(c *C14TransportCase, rec *evid.Rec) (vs []pbt.Violation) 
 		feed((&rig.InMsg{Type: rig.TLogon, Seq: fmt.Sprint(seq), Fields: []rig.Tok{rig.F(rig.TagEncryptMethod, "0"), rig.F(rig.TagHeartBtInt, "30"),
 			rig.F(rig.TagUsername, "alice"), rig.F(rig.TagPassword, "secret")}}).Bytes())
 		synctest.Wait()
+		if early {
+			time.Sleep(time.Duration(c.SetupNs) + 10*time.Millisecond) // the callback returns, the Logon is served
+			synctest.Wait()
+		}
 		for k, id := range c.IDs {
 			if k < len(c.Bad) && c.Bad[k] != "" {
 				seq++
@@ -170,6 +187,9 @@ func checkC14Transport(c *C14TransportCase, rec *evid.Rec) (vs []pbt.Violation) 
 	}
 	if bads > 0 {
 		rec.Hist("transport:damaged-message-ahead-of-a-request")
+	}
+	if c.SetupNs > 0 {
+		rec.Hist("transport:logon-sent-while-the-new-client-callback-runs")
 	}
 	long := false
 	for _, id := range c.IDs {
